@@ -81,10 +81,14 @@ pub struct Directive {
     pub fault: Option<(FaultKind, usize)>,
     /// sleep this many seconds before sending the packet at the position
     pub delay: Option<(usize, u64)>,
+    /// sleep this many milliseconds before sending the packet at the position (position 99 = before every packet,
+    /// 98 = before every packet but the acknowledgement)
+    #[serde(default)]
+    pub delay_ms: Option<(usize, u64)>,
 }
 impl Default for Directive {
     fn default() -> Self {
-        Directive { outcome: Outcome::Normal, fault: None, delay: None }
+        Directive { outcome: Outcome::Normal, fault: None, delay: None, delay_ms: None }
     }
 }
 #[derive(Clone, Copy, Debug, PartialEq, serde::Serialize, serde::Deserialize)]
@@ -498,6 +502,11 @@ pub async fn serve(mut s: DuplexStream, sim: Shared, conn: usize) {
             if let Some((pos, secs)) = d.delay {
                 if pos == i {
                     tokio::time::sleep(Duration::from_secs(secs)).await;
+                }
+            }
+            if let Some((pos, ms)) = d.delay_ms {
+                if pos == i || pos == 99 || (pos == 98 && i > 0) {
+                    tokio::time::sleep(Duration::from_millis(ms)).await;
                 }
             }
             if let Some((k, pos)) = d.fault {
